@@ -264,7 +264,19 @@ fn zst_one(rng: &mut Rng) -> Result<(), String> {
                     present = false;
                 }
                 8 => s.shrink_to_fit(),
-                9 => s.reserve(rng.below(40) as usize),
+                9 => {
+                    // try_reserve: Ok with room, or an error value — never a panic (C12)
+                    let n = *rng.pick(&[0usize, 1, 40, usize::MAX / 2, usize::MAX]);
+                    match s.try_reserve(n) {
+                        Ok(()) => {
+                            if (s.capacity() as u128) < s.len() as u128 + n as u128 {
+                                return Err(format!("try_reserve({}) = Ok but capacity {} < len + n", n, s.capacity()));
+                            }
+                        }
+                        Err(_) => {}
+                    }
+                    s.reserve(rng.below(40) as usize)
+                }
                 10 => {
                     let c = s.clone();
                     if c != s || c.len() != s.len() {
@@ -343,6 +355,13 @@ fn zst_one(rng: &mut Rng) -> Result<(), String> {
                 7 => {
                     m.shrink_to_fit();
                     mv.shrink_to_fit();
+                    let n = *rng.pick(&[0usize, 1, 40, usize::MAX / 2, usize::MAX]);
+                    if let Ok(()) = m.try_reserve(n) {
+                        if (m.capacity() as u128) < m.len() as u128 + n as u128 {
+                            return Err(format!("HashMap<(),()>::try_reserve({}) = Ok but capacity {} < len + n", n, m.capacity()));
+                        }
+                    }
+                    let _ = mv.try_reserve(n);
                 }
                 _ => {
                     let take = rng.chance(1, 2);
